@@ -301,6 +301,35 @@ class StmtMixin:
         raise Unsupported('item assignment on %r' % (base,))
 
     def setslice(self, base, lo, hi, v):
+        """lst[lo:hi] = [x] * n on a heap list, for the length-preserving case
+        n == (clamped) hi - lo; anything else is outside the supported subset"""
+        from .core import VRepeat
+        base = self.force(base, 'slice assignment base')
+        if isinstance(base, SRef) and base.shape.cls in CONTAINERS and CONTAINERS[base.shape.cls][0] == 'list' \
+                and isinstance(v, VRepeat):
+            from .absseq import clamp
+            P = self.path
+            elem = CONTAINERS[base.shape.cls][1]
+            ln = P.read_field(base, 'len').e
+            a = clamp(as_arith(self.force(lo)), ln) if lo is not None else z3.IntVal(0)
+            b = clamp(as_arith(self.force(hi)), ln) if hi is not None else ln
+            b = z3.If(b < a, a, b)
+            n = z3.If(v.n > 0, v.n, 0)
+            if not P.decide(n == b - a):
+                raise Unsupported('slice assignment that changes the length of the list')
+            items = P.read_field(base, 'items')
+            new = items.shape.fresh('sliced')
+            x = coerce(P, v.elem, elem)
+            k = z3.Int(fresh_name('k'))
+            kk = SV(IntS, k)
+            P.assume(z3.ForAll([k], z3.Implies(z3.And(k >= a, k < b), self.eq(new.shape.select(new, kk), x))))
+            P.assume(z3.ForAll([k], z3.Implies(z3.Or(k < a, k >= b),
+                                               self.eq(new.shape.select(new, kk), items.shape.select(items, kk)))))
+            P.write_field(base, 'items', new)
+            # the multiset view is not maintained across a slice assignment
+            cnt = container_fields(base.shape.cls)['cnt'].fresh('cnt_after_slice')
+            P.write_field(base, 'cnt', cnt)
+            return
         raise Unsupported('slice assignment')
 
     def st_Delete(self, node):
